@@ -104,8 +104,11 @@ def pres_choice(rng):
             "dwells": rng.choice(PRESENT)}
 
 
-def label_choice(rng):
-    return rng.choice(LABELS)
+def label_choice(rng, multiline=True):
+    while True:
+        lab = rng.choice(LABELS)
+        if multiline or lab is None or "\n" not in lab:
+            return lab
 
 
 # ----------------------------------------------------------------------------- volume choices
@@ -176,7 +179,7 @@ def op_labware(rng, sess, name, big, fault=0.0, comps=False, nmax=4, allow2d=Tru
     vshape = maybe_scalar(rng, vols) or same_shape(wshape, vols)
     if wshape["k"] == "m" and rng.random() < 0.3:
         vshape = {"k": "l", "x": list(vols)}
-    op = {"op": name, "lw": k, "wells": wshape, "vols": vshape, "label": label_choice(rng)}
+    op = {"op": name, "lw": k, "wells": wshape, "vols": vshape, "label": label_choice(rng, multiline=not sess.prog.get("flags", {}).get("fullhist"))}
     if comps and name in ("add", "dispense"):
         pool = [{"x": (1, 1)}, {"x": (1, 2), "y": (1, 2)}, {"water": (1, 1)}, {"x": (1, 4), "z": (3, 4)}]
         op["comps"] = [dict(rng.choice(pool)) for _ in range(n)]
@@ -233,7 +236,7 @@ def op_transfer(rng, sess, big, fault=0.0, nmax=4, same_ok=True, washes=(1, 2, 3
     sshape = shape_of(rng, swl, allow2d)
     dshape = shape_of(rng, dwl, allow2d) if len(dwl) != len(swl) or rng.random() < 0.5 else same_shape(sshape, dwl) if len(dwl) == len(swl) else shape_of(rng, dwl)
     vshape = maybe_scalar(rng, vl) or (same_shape(sshape, vl) if len(swl) == n else {"k": "l", "x": list(vl)})
-    op = {"op": "transfer", "src": ks, "sw": sshape, "dst": kd, "dw": dshape, "vols": vshape, "label": label_choice(rng),
+    op = {"op": "transfer", "src": ks, "sw": sshape, "dst": kd, "dw": dshape, "vols": vshape, "label": label_choice(rng, multiline=not sess.prog.get("flags", {}).get("fullhist")),
           "wash": rng.choice(list(washes)), "pby": rng.choice(["auto", "auto", "source", "destination"])}
     if kw:
         op["kw"] = kw
